@@ -12,6 +12,8 @@ New nodes receive the ids `fresh, fresh+1, …` (Python: new objects); a missing
 as the LAST child of its parent, so the address of every pre-existing node is unchanged.
 -/
 
+namespace Paths
+
 abbrev Addr := List Nat
 
 /-- kinds of refusal: `TreeError`, `DuplicatedNodeError`, `ValueError`, anything else
@@ -19,8 +21,6 @@ abbrev Addr := List Nat
 inductive Err where
   | tree | dup | value | other
   deriving DecidableEq, Repr, Inhabited
-
-namespace Tree
 
 /-- the node at an address -/
 def nodeAt : Addr → Tree → Option Tree
@@ -32,7 +32,7 @@ def nodeAt : Addr → Tree → Option Tree
 /-- apply `f` to the node at an address (no-op on an invalid address) -/
 def modifyAt (f : Tree → Tree) : Addr → Tree → Tree
   | [], t => f t
-  | k :: ks, node i n a cs => node i n a (cs.modify k (modifyAt f ks))
+  | k :: ks, .node i n a cs => .node i n a (cs.modify k (modifyAt f ks))
 
 /-- names from the root down to the node at the address (`node_path` names) -/
 def namesAlong : Addr → Tree → List Str
@@ -44,7 +44,7 @@ def namesAlong : Addr → Tree → List Str
 mutual
 /-- name paths of all nodes, pre-order -/
 def paths : Tree → List (List Str)
-  | node _ n _ cs => [n] :: (pathsL cs).map (n :: ·)
+  | .node _ n _ cs => [n] :: (pathsL cs).map (n :: ·)
 def pathsL : List Tree → List (List Str)
   | [] => []
   | c :: cs => paths c ++ pathsL cs
@@ -53,7 +53,7 @@ end
 mutual
 /-- addresses of the nodes called `name`, pre-order (`findall(root, node_name == name)`) -/
 def findName (name : Str) : Tree → List Addr
-  | node _ n _ cs => (if n = name then [[]] else []) ++ findNameL name 0 cs
+  | .node _ n _ cs => (if n = name then [[]] else []) ++ findNameL name 0 cs
 def findNameL (name : Str) (k : Nat) : List Tree → List Addr
   | [] => []
   | c :: cs => (findName name c).map (k :: ·) ++ findNameL name (k + 1) cs
@@ -62,7 +62,7 @@ end
 mutual
 /-- all names, pre-order -/
 def names : Tree → List Str
-  | node _ n _ cs => n :: namesL cs
+  | .node _ n _ cs => n :: namesL cs
 def namesL : List Tree → List Str
   | [] => []
   | c :: cs => names c ++ namesL cs
@@ -74,12 +74,9 @@ def childIdxs (name : Str) : Nat → List Tree → List Nat
   | k, c :: cs => if c.name = name then k :: childIdxs name (k + 1) cs else childIdxs name (k + 1) cs
 
 def appendChild (new : Tree) : Tree → Tree
-  | node i n a cs => node i n a (cs ++ [new])
+  | .node i n a cs => .node i n a (cs ++ [new])
 
-end Tree
-
-namespace Paths
-open Tree Str
+open Str
 
 /-- `Node.path_name`: `sep + sep.join(names)` with the TREE's separator -/
 def pathName (treeSep : Str) (ad : Addr) (t : Tree) : Str := treeSep ++ join treeSep (namesAlong ad t)
@@ -94,7 +91,7 @@ def updateAttrs (old new : Attrs) : Attrs := new.foldl (fun acc kv => setKey kv.
 
 /-- `node.set_attrs(attrs)` -/
 def setAttrs (a : Attrs) : Tree → Tree
-  | node i n old cs => node i n (updateAttrs old a) cs
+  | .node i n old cs => .node i n (updateAttrs old a) cs
 
 /-- the lookup inside the loop of `add_path_to_tree`; `pre'` is `branch[:idx+1]` -/
 def lookup (treeSep : Str) (dupOk : Bool) (t : Tree) (paddr : Addr) (pre' : List Str) (c : Str) :
